@@ -155,6 +155,12 @@ def _guarded_update_ok(ctx, fn, assign, cand_texts, selfn):
 
 def rules(ctx):
     P = ctx.prog
+    from .C14 import no_module_state
+    ctx.rule('R13.8', "no function writes module-level state (memo / registry): results independent of earlier calls", floor=1)
+    no_module_state(ctx, 'R13.8')
+    ctx.rule('R13.9', "to_boolean / to_spin rest on boolean_to_spin / spin_to_boolean converting elements by value (table lookup)", floor=2)
+    from .C04 import element_conversion
+    element_conversion(ctx, 'R13.9')
     ctx.rule('R13.1', "every membership-changing list operation is overridden by AnnealResults "
                       "(sort/reverse/__imul__ classified harmless with reason)", floor=9)
     ctx.rule('R13.2', "each override maintains `best` on every CFG path", floor=9)
